@@ -7,7 +7,7 @@ use domain::base::message::Message;
 use domain::base::message_builder::{
     MessageBuilder, StaticCompressor, TreeCompressor,
 };
-use domain::base::name::ParsedName;
+use domain::base::name::{ParsedName, ToName};
 use domain::base::rdata::{ComposeRecordData, RecordData, UnknownRecordData};
 use domain::base::record::Record;
 use domain::base::wire::Composer;
@@ -159,6 +159,10 @@ pub fn observe_rdata(msg_octets: &[u8], _may_compress: bool, strict_opts: bool) 
                 if compose_canon(z.data()) != canon {
                     issues.push("ZoneRecordData canonical form differs".into());
                 }
+                let zr = via_ref(z.data());
+                if zr.wire != wire || zr.canon != canon || zr.rtype != rtype.to_int() {
+                    issues.push("through &ZoneRecordData: composition differs".into());
+                }
                 if z.data().rtype() != rtype {
                     issues.push("ZoneRecordData rtype differs".into());
                 }
@@ -211,6 +215,64 @@ pub fn observe_rdata(msg_octets: &[u8], _may_compress: bool, strict_opts: bool) 
         &mut issues,
     );
 
+    // the forwarding impls for references: the same answers through `&T`
+    // as a type parameter and through `Record<_, &T>`
+    {
+        let r = via_ref(data);
+        if r.rtype != rtype.to_int() {
+            issues.push("through &T: rtype differs".into());
+        }
+        if r.rdlen != data.rdlen(false) || r.rdlen_c != data.rdlen(true) {
+            issues.push("through &T: rdlen differs".into());
+        }
+        if r.wire != wire {
+            issues.push("through &T: compose_rdata differs".into());
+        }
+        if r.canon != canon {
+            issues.push("through &T: compose_canonical_rdata differs".into());
+        }
+        if r.len_rdata != lenbuf {
+            issues.push("through &T: compose_len_rdata differs".into());
+        }
+        if r.canon_len_rdata != clenbuf {
+            issues.push("through &T: compose_canonical_len_rdata differs".into());
+        }
+        let rr = via_ref(&data);
+        if rr.wire != wire || rr.canon != canon || rr.rdlen != data.rdlen(false) {
+            issues.push("through &&T: composition differs".into());
+        }
+        // whole records, owned data and borrowed data
+        let owner_w: Vec<u8> = {
+            let mut v = Vec::new();
+            rec.owner().compose(&mut v).unwrap();
+            v
+        };
+        let mut expect = owner_w.to_ascii_lowercase();
+        expect.extend_from_slice(&rtype.to_int().to_be_bytes());
+        expect.extend_from_slice(&[0, 1, 0, 0, 14, 16]);
+        expect.extend_from_slice(&(canon.len() as u16).to_be_bytes());
+        expect.extend_from_slice(&canon);
+        let mut plain = owner_w.clone();
+        plain.extend_from_slice(&expect[owner_w.len()..owner_w.len() + 8]);
+        plain.extend_from_slice(&(wire.len() as u16).to_be_bytes());
+        plain.extend_from_slice(&wire);
+        let by_ref = Record::new(rec.owner().clone(), Class::IN, Ttl::from_secs(3600), data);
+        let (mut c1, mut c2, mut p1, mut p2) = (Vec::new(), Vec::new(), Vec::new(), Vec::new());
+        rec.compose_canonical(&mut c1).unwrap();
+        by_ref.compose_canonical(&mut c2).unwrap();
+        rec.compose(&mut p1).unwrap();
+        by_ref.compose(&mut p2).unwrap();
+        if c1 != expect {
+            issues.push("Record::compose_canonical differs from lower-cased owner + canonical RDATA".into());
+        }
+        if c2 != expect {
+            issues.push("Record<_, &T>::compose_canonical differs from lower-cased owner + canonical RDATA".into());
+        }
+        if p1 != plain || p2 != plain {
+            issues.push("Record::compose differs from owner + RDATA".into());
+        }
+    }
+
     // EDNS options: every option the library parses must re-compose to its
     // own octets; well-formed options of the kinds in OptLayout must parse
     if let AllRecordData::Opt(opt) = data {
@@ -230,6 +292,35 @@ pub fn observe_rdata(msg_octets: &[u8], _may_compress: bool, strict_opts: bool) 
     issues.dedup();
     json!({"parse": "ok", "wire": wire, "canon": canon, "len": len,
            "known": known, "issues": issues})
+}
+
+pub struct ViaRef {
+    pub rtype: u16,
+    pub rdlen: Option<u16>,
+    pub rdlen_c: Option<u16>,
+    pub wire: Vec<u8>,
+    pub canon: Vec<u8>,
+    pub len_rdata: Vec<u8>,
+    pub canon_len_rdata: Vec<u8>,
+}
+
+/// Everything ComposeRecordData / RecordData offer, called on a type
+/// parameter: instantiated with `&data` this runs the `impl for &T`.
+pub fn via_ref<T: ComposeRecordData>(t: T) -> ViaRef {
+    let mut r = ViaRef {
+        rtype: t.rtype().to_int(),
+        rdlen: t.rdlen(false),
+        rdlen_c: t.rdlen(true),
+        wire: Vec::new(),
+        canon: Vec::new(),
+        len_rdata: Vec::new(),
+        canon_len_rdata: Vec::new(),
+    };
+    t.compose_rdata(&mut r.wire).unwrap();
+    t.compose_canonical_rdata(&mut r.canon).unwrap();
+    t.compose_len_rdata(&mut r.len_rdata).unwrap();
+    t.compose_canonical_len_rdata(&mut r.canon_len_rdata).unwrap();
+    r
 }
 
 fn check_options(
@@ -323,14 +414,16 @@ fn recompose<T>(
     T: Composer + AsRef<[u8]>,
 {
     let mut ans = builder.answer();
-    for _ in 0..2 {
-        if ans
-            .push((rec.owner(), Class::IN, Ttl::from_secs(3600), rec.data()))
-            .is_err()
-        {
-            issues.push(format!("{what}: push failed"));
-            return;
-        }
+    // first copy as a tuple by value, second as a reference to a record
+    // whose data is itself a reference (the forwarding impls)
+    let by_ref = Record::new(rec.owner().clone(), Class::IN, Ttl::from_secs(3600), rec.data());
+    if ans
+        .push((rec.owner(), Class::IN, Ttl::from_secs(3600), rec.data()))
+        .is_err()
+        || ans.push(&by_ref).is_err()
+    {
+        issues.push(format!("{what}: push failed"));
+        return;
     }
     let out = ans.finish();
     let bytes: &[u8] = out.as_ref();
@@ -359,7 +452,11 @@ fn recompose<T>(
         };
         match r.into_any_record::<AllData<'_>>() {
             Ok(r2) => {
-                if compose_plain(r2.data()) != wire {
+                // a compressing target may point an embedded name at an earlier
+                // occurrence that differs in ASCII case; the value is then still
+                // equal (checked below), the octets only up to case
+                let back = compose_plain(r2.data());
+                if (exact && back != wire) || !back.eq_ignore_ascii_case(wire) {
                     issues.push(format!("{what}: record re-parses to different octets"));
                 }
                 if r2.data() != rec.data() {
@@ -382,6 +479,28 @@ fn recompose<T>(
     if n != 2 {
         issues.push(format!("{what}: {n} records instead of 2"));
     }
+}
+
+/// Drives the RtypeBitmap builder with the given add calls.
+pub fn build_bitmap(adds: &[u16]) -> domain::rdata::dnssec::RtypeBitmap<Vec<u8>> {
+    let mut b = domain::rdata::dnssec::RtypeBitmap::<Vec<u8>>::builder();
+    for t in adds {
+        b.add(Rtype::from_int(*t)).unwrap();
+    }
+    b.finalize()
+}
+
+/// value -> compose -> parse for an NSEC built through the bitmap builder
+pub fn observe_bitmap(adds: &[u16], probe: &[u16]) -> Value {
+    use domain::base::name::Name;
+    let bm = build_bitmap(adds);
+    let contains: Vec<bool> = probe.iter().map(|t| bm.contains(Rtype::from_int(*t))).collect();
+    let octets = bm.as_slice().to_vec();
+    let nsec = domain::rdata::Nsec::new(Name::from_octets(vec![1u8, b'a', 0]).unwrap(), bm);
+    let mut rd = Vec::new();
+    nsec.compose_rdata(&mut rd).unwrap();
+    let msg = one_record_msg(&[1, b'x', 2, b'Y', b'z', 0], 47, &rd);
+    json!({"bitmap": octets, "contains": contains, "rd": observe_rdata(&msg, false, false)})
 }
 
 pub fn rtype_of(v: &Value) -> Rtype {
@@ -907,6 +1026,42 @@ pub mod order {
         ag.put("canon", if canonfree { json!("free") } else { json!(c) }, "Record canonical_cmp");
         ag.put("hash_ok", json!(ra != rb || h(&ra) == h(&rb)), "Record hash");
 
+        // the record data of the two records compared directly (possibly of
+        // different types, known or unknown): no order is pinned across
+        // types, but it must be antisymmetric and Equal only for == values
+        {
+            let (da, db) = (ra.data(), rb.data());
+            if sgn(da.canonical_cmp(db)) != -sgn(db.canonical_cmp(da)) {
+                ag.issues.push("AllRecordData canonical_cmp across records not antisymmetric".into());
+            }
+            if sgn(da.cmp(db)) != -sgn(db.cmp(da)) {
+                ag.issues.push("AllRecordData cmp across records not antisymmetric".into());
+            }
+            if (da.canonical_cmp(db) == Ordering::Equal && da != db)
+                || ((da.cmp(db) == Ordering::Equal) != (da == db))
+            {
+                ag.issues.push("AllRecordData order and == incoherent across records".into());
+            }
+            let za = ma_.answer().unwrap().next().unwrap().unwrap().into_record::<ZoneData<'_>>();
+            let zb = mb_.answer().unwrap().next().unwrap().unwrap().into_record::<ZoneData<'_>>();
+            if let (Ok(Some(rza)), Ok(Some(rzb))) = (za, zb) {
+                let (za, zb) = (rza.data(), rzb.data());
+                if sgn(za.canonical_cmp(zb)) != -sgn(zb.canonical_cmp(za))
+                    || sgn(za.cmp(zb)) != -sgn(zb.cmp(za))
+                {
+                    ag.issues.push("ZoneRecordData order across records not antisymmetric".into());
+                }
+                if (za.canonical_cmp(zb) == Ordering::Equal && za != zb)
+                    || ((za.cmp(zb) == Ordering::Equal) != (za == zb))
+                {
+                    ag.issues.push("ZoneRecordData order and == incoherent across records".into());
+                }
+                // records over the zone enum order like those over the full enum
+                let cz = sgn(rza.canonical_cmp(&rzb));
+                ag.put("canon", if canonfree { json!("free") } else { json!(cz) }, "Record<_, ZoneRecordData> canonical_cmp");
+            }
+        }
+
         // the owned (flattened) form of both records
         type OwnedRec = Record<Name<Vec<u8>>, AllRecordData<Vec<u8>, Name<Vec<u8>>>>;
         let oa: Result<OwnedRec, _> = ra.clone().try_flatten_into();
@@ -945,7 +1100,7 @@ pub mod order {
         if sgn(ha.cmp(&hb)) != -sgn(hb.cmp(&ha)) || ha.partial_cmp(&hob) != Some(ha.cmp(&hb)) {
             ag.issues.push("RecordHeader order incoherent".into());
         }
-        ag.put("hash_ok", json!(ha != hb || (h(&ha) == h(&hb) && h(&hoa) == h(&hb))), "RecordHeader hash");
+        ag.put("hash_ok_hq", json!(ha != hb || (h(&ha) == h(&hb) && h(&hoa) == h(&hb))), "RecordHeader hash");
         ag.put("parsed_eq", json!(prec_at12(&ma) == prec_at12(&mb)), "ParsedRecord ==");
         ag.put("parsed_eq", json!(prec_at12(&mb) == prec_at12(&ma)), "ParsedRecord == reversed");
 
@@ -968,7 +1123,7 @@ pub mod order {
         ag.put("q_canon", json!(sgn(qa.canonical_cmp(&qb))), "Question canonical_cmp");
         ag.put("q_canon", json!(sgn(qoa.canonical_cmp(&qb))), "owned Question canonical_cmp");
         ag.put("q_canon", json!(-sgn(qb.canonical_cmp(&qoa))), "Question canonical_cmp reversed");
-        ag.put("hash_ok", json!(qa != qb || (h(&qa) == h(&qb) && h(&qoa) == h(&qb))), "Question hash");
+        ag.put("hash_ok_hq", json!(qa != qb || (h(&qa) == h(&qb) && h(&qoa) == h(&qb))), "Question hash");
 
         free_pair(&mut ag, eqfree, "eq", "cmp0");
         ag.finish()
